@@ -15,12 +15,12 @@ def clip(s, n):
 out = ["# Independently authored breaking changes", "",
  "Sub-agents saw only the property text (waves 2, 3 and 4 also the titles of earlier seeds; wave 3 was asked for changes that need a fault at a point, "
  "an overlap, a multi-step sequence or state surviving between calls; wave 4 for two cooperating edits or two independent conditions). "
- "Seeds <ID>-1..3 = wave 1, -4..6 = wave 2, -7..9 = wave 3, -10..12 = wave 4, -13..15 = wave 6 (changes that only show under a fault at a particular point, a once-only error, a sentinel error value, a cancellation or resource accounting; wave 5 was the neutral wave, see /verif/neutral), -16..18 = wave 7 (changes that show only behind a less-travelled part of the public API or an uncommon configuration), -19..21 = wave 9 (boundary bugs: an exact size, count, offset or limit; wave 8 was the second neutral wave), -22 = wave 10 (one more per property by authors who saw all 21 earlier titles), -23 = wave 11 (one more per property, authors shown the property text only and asked for less-travelled clauses and code paths). 'first result' = quick tier of the property's own check as it was before the wave was looked at.", "",
+ "Seeds <ID>-1..3 = wave 1, -4..6 = wave 2, -7..9 = wave 3, -10..12 = wave 4, -13..15 = wave 6 (changes that only show under a fault at a particular point, a once-only error, a sentinel error value, a cancellation or resource accounting; wave 5 was the neutral wave, see /verif/neutral), -16..18 = wave 7 (changes that show only behind a less-travelled part of the public API or an uncommon configuration), -19..21 = wave 9 (boundary bugs: an exact size, count, offset or limit; wave 8 was the second neutral wave), -22 = wave 10 (one more per property by authors who saw all 21 earlier titles), -23 = wave 11 (one more per property, authors shown the property text only and asked for less-travelled clauses and code paths), -24 = wave 12 (six properties, authors shown all 22 earlier titles and asked for something different in kind). 'first result' = quick tier of the property's own check as it was before the wave was looked at.", "",
  "| seed | change | needs | first result | reported by (now) |", "|---|---|---|---|---|"]
 first = {}
 for pid, n, name, m in rows:
     fr = str(m.get('first_result', '?')).split(' (')[0]
-    wave = 11 if n >= 23 else {1: 1, 2: 2, 3: 3, 4: 4, 5: 6, 6: 7, 7: 9, 8: 10}[(n - 1) // 3 + 1]
+    wave = 12 if n >= 24 else 11 if n == 23 else {1: 1, 2: 2, 3: 3, 4: 4, 5: 6, 6: 7, 7: 9, 8: 10}[(n - 1) // 3 + 1]
     first.setdefault(wave, [0, 0])
     if fr in ('caught', 'missed', 'exit-2', 'not-reported'):
         first[wave][1] += 1
